@@ -11,6 +11,7 @@ Definition caller_of (o : op) : addr :=
   | OPairUpdateDecimals _ c _ _ _ => c | ORouterOps c _ _ _ _ => c | ORouterOp c _ _ _ _ => c
   | ORouterAssertMin c _ _ _ _ => c | ORouterReceive c _ _ _ => c | OFacUpdateConfig c _ => c
   | OFacCreatePair c _ _ _ _ _ _ _ => c | OFacAddNative c _ _ => c | OFacMigrate c _ => c
+  | OSendFrom _ sp _ _ _ _ => sp | OBurnFrom _ sp _ _ => sp | ODecreaseAllowance _ ow _ _ => ow
   end.
 (* an address that is (or will be) a contract of the system: factory, router, any pair or token, any address not yet allocated *)
 Definition is_contract (w : world) (a : addr) : Prop :=
@@ -142,13 +143,46 @@ Lemma tok_burn_allow t sd n t' : tok_burn t sd n = Ok t' ->
   forall c s, t_allow t c s = None -> t_allow t' c s = None.
 Proof. intros H c s Hn. apply tok_burn_inv in H. destruct H as (A & _). rewrite A. exact Hn. Qed.
 
+(* BurnFrom: like TransferFrom, the debited owner holds an allowance entry *)
+Lemma tok_burn_from_inv t sp ow n t' : tok_burn_from t sp ow n = Ok t' ->
+  t_allow t ow sp <> None /\
+  (forall c s, t_allow t c s = None -> t_allow t' c s = None) /\
+  t_supply t' <= t_supply t /\
+  (forall x, x <> ow -> t_bal t' x = t_bal t x).
+Proof.
+  intros H. apply tok_burn_from_effect in H.
+  destruct H as (al & Ha & _ & _ & _ & Hs & _ & _ & Hal & Hb).
+  split; [congruence|]. split; [|split].
+  - intros c s Hn. rewrite Hal.
+    destruct ((c =? ow) && (s =? sp)) eqn:E; [|exact Hn].
+    apply andb_true_iff in E. destruct E as [E1 E2]. apply N.eqb_eq in E1, E2. subst c s. congruence.
+  - rewrite Hs. apply N.le_sub_l.
+  - intros x Hx. rewrite Hb. apply N.eqb_neq in Hx. rewrite Hx. reflexivity.
+Qed.
+
+Lemma tok_burn_from_allow t sp ow n t' : tok_burn_from t sp ow n = Ok t' ->
+  forall c s, t_allow t c s = None -> t_allow t' c s = None.
+Proof. intros H. apply tok_burn_from_inv in H. apply H. Qed.
+
+(* DecreaseAllowance only touches an existing entry *)
+Lemma tok_decrease_allowance_allow t ow sp n t' : tok_decrease_allowance t ow sp n = Ok t' ->
+  forall c s, t_allow t c s = None -> t_allow t' c s = None.
+Proof.
+  intros H c s Hn. apply tok_decrease_allowance_effect in H.
+  destruct H as (_ & al & Ha & _ & _ & _ & _ & Hal). rewrite Hal.
+  destruct ((c =? ow) && (s =? sp)) eqn:E; [|exact Hn].
+  apply andb_true_iff in E. destruct E as [E1 E2]. apply N.eqb_eq in E1, E2. subst c s. congruence.
+Qed.
+
 Ltac allow_side :=
   let t := fresh "t" in let t' := fresh "t'" in let H := fresh "H" in
   intros t t' H; cbv beta in H;
   first [ exact (tok_transfer_allow _ _ _ _ _ H)
         | exact (tok_transfer_from_allow _ _ _ _ _ _ H)
         | exact (tok_mint_allow _ _ _ _ _ H)
-        | exact (tok_burn_allow _ _ _ _ H) ].
+        | exact (tok_burn_allow _ _ _ _ H)
+        | exact (tok_burn_from_allow _ _ _ _ _ H)
+        | exact (tok_decrease_allowance_allow _ _ _ _ _ H) ].
 
 Lemma with_token_K w ta f w' :
   (forall t t', f t = Ok t' -> forall c sp, t_allow t c sp = None -> t_allow t' c sp = None) ->
@@ -312,6 +346,19 @@ Ltac K_fact H ::=
         | apply fac_add_native_K in H | apply fac_update_config_K in H | apply fac_migrate_pair_K in H
         | apply router_hop_K in H | apply router_exec_ops_K in H | apply router_assert_min_K in H
         | apply cw20_send_K in H ].
+
+Lemma cw20_send_from_K w ta sp ow target n h w' : cw20_send_from w ta sp ow target n h = Ok w' -> K w w'.
+Proof. intros H. unfold cw20_send_from in H. cbv beta zeta in H. K_solve. Qed.
+
+Ltac K_fact H ::=
+  first [ apply bank_send_K in H | apply move_funds_K in H
+        | (apply with_token_K in H; [| solve [allow_side]])
+        | (eapply pair_update_decimals_K in H; [| eassumption])
+        | apply pay_asset_K in H | apply pair_swap_K in H | apply pair_withdraw_K in H
+        | apply pair_provide_K in H | apply pair_receive_K in H
+        | apply fac_add_native_K in H | apply fac_update_config_K in H | apply fac_migrate_pair_K in H
+        | apply router_hop_K in H | apply router_exec_ops_K in H | apply router_assert_min_K in H
+        | apply cw20_send_K in H | apply cw20_send_from_K in H ].
 
 (* every operation other than IncreaseAllowance and pair creation *)
 Lemma exec_K w o w' : exec w o = Ok w' ->
@@ -553,6 +600,39 @@ Proof.
     eapply router_exec_ops_Gs; eassumption.
 Qed.
 
+(* BurnFrom / SendFrom debit the OWNER, who need not be the submitter: what protects [x] is that it holds no
+   outgoing allowance ([Pre]), so nobody can spend from it *)
+Lemma burn_from_Gs x w ta sp ow n w' :
+  Pre x w -> with_token w ta (fun t => tok_burn_from t sp ow n) = Ok w' -> Gs x w w'.
+Proof.
+  intros (_ & _ & Hp) H. eapply with_token_Gs; [|exact H]. intros t t' Ht Hf. cbv beta in Hf.
+  apply tok_burn_from_inv in Hf. destruct Hf as (Hal & _ & Hs & Hb). split; [exact Hs|].
+  rewrite Hb; [apply N.le_refl|]. intros ->. apply Hal. eapply Hp. exact Ht.
+Qed.
+
+Lemma cw20_send_from_Gs x w ta sp ow target n h w' :
+  Pre x w -> cw20_send_from w ta sp ow target n h = Ok w' -> Gs x w w'.
+Proof.
+  intros HP H. unfold cw20_send_from in H. bnd H w1 H1.
+  assert (HP1 : Pre x w1).
+  { eapply K_Pre; [|exact HP]. eapply with_token_K; [|exact H1]. allow_side. }
+  apply (transfer_from_Gs x) in H1; [|exact HP].
+  eapply Gs_trans; [exact H1|].
+  destruct (w_pairs w1 target) as [ps|] eqn:Ep.
+  - eapply pair_receive_Gs; [|exact H]. eapply Pre_not_pair; eassumption.
+  - destruct (target =? w_rtr w1); [|discriminate].
+    destruct h as [| |ops m to|]; try discriminate.
+    eapply router_exec_ops_Gs; eassumption.
+Qed.
+
+Lemma decrease_allowance_Gs x w ta ow sp n w' :
+  with_token w ta (fun t => tok_decrease_allowance t ow sp n) = Ok w' -> Gs x w w'.
+Proof.
+  intros H. eapply with_token_Gs; [|exact H]. intros t t' _ Hf. cbv beta in Hf.
+  apply tok_decrease_allowance_effect in Hf. destruct Hf as (_ & al & _ & Hb & Hs & _).
+  split; [rewrite Hs|rewrite Hb]; apply N.le_refl.
+Qed.
+
 (* ---- factory ---- *)
 Lemma fac_update_records_Gs x dn k todo : forall w done w',
   fac_update_records w dn k todo done = Ok w' -> Gs x w w'.
@@ -740,6 +820,10 @@ Proof.
   - (* OFacUpdateConfig *) apply Gs_G. eapply fac_update_config_Gs. exact H.
   - (* OFacAddNative *) apply Gs_G. eapply fac_add_native_Gs. exact H.
   - (* OFacMigrate *) apply Gs_G. eapply fac_migrate_pair_Gs. exact H.
+  - (* OSendFrom: the owner debited is not [x], because [x] is a contract and contracts hold no allowance *)
+    apply Gs_G. eapply cw20_send_from_Gs; eassumption.
+  - (* OBurnFrom *) apply Gs_G. eapply burn_from_Gs; eassumption.
+  - (* ODecreaseAllowance *) apply Gs_G. eapply decrease_allowance_Gs. exact H.
 Qed.
 
 (* allowances of contracts: K restricted to contract owners (IncreaseAllowance by a user included) *)
